@@ -1976,7 +1976,14 @@ func (s *SweepingProvider) individualProvide(prefix bitstr.Key, keys []mh.Multih
 			// Put the key back in the provide queue.
 			s.failedProvide(prefix, keys, fmt.Errorf("individual provide failed for prefix '%s', %w", prefix, err))
 		}
-		if reprovide && err == nil {
+		if reprovide && err == nil && len(coveredPrefix) >= len(prefix) {
+			// Only ever narrow the scheduled prefix here. Rescheduling a shorter
+			// (wider) covered prefix would unschedule the sibling prefixes it
+			// subsumes although only this one key was reprovided: their keys
+			// would miss their slot in the current cycle and wait for the widened
+			// prefix's next slot, up to a full interval beyond the allowed delay.
+			// Regions are widened by batchReprovide, which reprovides every key
+			// of the covered prefix when it does so.
 			prefix = coveredPrefix
 		}
 		provideErr = err
